@@ -50,6 +50,22 @@ pub fn dump_comp(comp: &mut CompoundFile<Cursor<Vec<u8>>>) -> String {
                 st.consume(n);
                 pos += n as u64;
             }
+            // read-only calls interleaved on one thread: iterators over the directory that are still alive while the
+            // handle reads (every call must return; the listing must be what it was)
+            {
+                let mut it = comp.walk();
+                let first = it.next().is_some();
+                let _ = st.seek(SeekFrom::Start(0));
+                let _ = st.fill_buf().map(|b| b.len());
+                let rest = it.count();
+                if first as usize + rest != entries.len() {
+                    s.push_str(&format!(" WALKBAD({} of {})", first as usize + rest, entries.len()));
+                }
+                let it2 = comp.read_root_storage();
+                let _ = st.seek(SeekFrom::Start(len / 2));
+                let _ = st.fill_buf().map(|b| b.len());
+                let _ = it2.count();
+            }
         }
     }
     // path lookups that descend THROUGH every entry (no object exists below a stream, and none of this
